@@ -1,6 +1,7 @@
 package main
 
 import (
+	"context"
 	"fmt"
 	"go/ast"
 	"go/token"
@@ -9,6 +10,7 @@ import (
 	"path/filepath"
 	"sort"
 	"strings"
+	"time"
 
 	"golang.org/x/tools/go/packages"
 	"golang.org/x/tools/go/ssa"
@@ -378,6 +380,52 @@ func (p *Prelude) textFor(vc *VC) string {
 		}
 	}
 	return b.String()
+}
+
+// inconsistent checks each theory together with its dependencies; returns the name of a theory
+// from which a solver derives false, or "".
+func (p *Prelude) inconsistent(scratch string) string {
+	type res struct{ name, out string }
+	ch := make(chan res, len(p.order))
+	for _, n := range p.order {
+		go func(n string) {
+			need := map[string]bool{"core": true}
+			var add func(x string)
+			add = func(x string) {
+				if need[x] {
+					return
+				}
+				need[x] = true
+				if f := p.files[x]; f != nil {
+					for _, d := range f.depends {
+						add(d)
+					}
+				}
+			}
+			add(n)
+			var b strings.Builder
+			b.WriteString("(set-logic ALL)\n")
+			for _, m := range p.order {
+				if need[m] {
+					b.WriteString(p.files[m].text)
+					b.WriteString("\n")
+				}
+			}
+			b.WriteString("(check-sat)\n")
+			file := filepath.Join(scratch, "prelude_"+n+".smt2")
+			os.WriteFile(file, []byte(b.String()), 0644)
+			r := runSolver(context.Background(), solvers[0], file, 3*time.Second)
+			ch <- res{n, r.result}
+		}(n)
+	}
+	bad := ""
+	for range p.order {
+		r := <-ch
+		if r.out == "unsat" {
+			bad = r.name
+		}
+	}
+	return bad
 }
 
 func loadPrelude(dir string) (*Prelude, error) {
